@@ -55,8 +55,10 @@ def ensure_overrides():
     return r.returncode == 0 and os.path.exists(cls)
 
 
-def java_cmd(overrides=True, heap="2g", dfs=False):
+def java_cmd(overrides=True, heap="2g", dfs=False, library=None):
     cmd = ["java", "-XX:+UseParallelGC", "-Xmx" + heap, "-Xss16m"]
+    if library:
+        cmd.append("-DTLA-Library=" + library)
     cp = [JAR, CM]
     if overrides and overrides_available():
         cmd.append("-Dtlc2.overrides.TLCOverrides=tlc2.overrides.TLCOverrides:FAOverrides")
@@ -106,12 +108,12 @@ class TLCResult:
 
 
 def run(module, cfg=None, *, workers=None, env=None, extra=(), timeout=3600, overrides=True,
-        heap="4g", deadlock=False, dfs=False, cwd=None, tag=None):
+        heap="4g", deadlock=False, dfs=False, cwd=None, tag=None, library=None):
     """Run TLC on spec/<module>.tla with spec/<cfg>. Returns TLCResult."""
     wd = workdir()
     tag = tag or module
     meta = os.path.join(wd, "meta_%s_%d" % (tag, time.time_ns() % 10**9))
-    cmd = java_cmd(overrides, heap, dfs)
+    cmd = java_cmd(overrides, heap, dfs, library)
     cmd += ["-metadir", meta, "-noGenerateSpecTE", "-workers", str(workers or NCPU)]
     if not deadlock:
         cmd += ["-deadlock"]
